@@ -190,6 +190,32 @@ def handle13 (args : List String) : Option String :=
       match cmapAll chain codec with
       | .error e => pure s!"err-{e}"
       | .ok items => pure ("ok " ++ wireList ";" (fun (p : Nat × Nat) => toString p.1 ++ "=" ++ toString p.2) items)
+  | ["blocks", a, b, c, d, e] => do
+    -- sizes of the begin…end blocks of the CMap writer: code space, cidchar, cidrange, notdefchar, notdefrange
+    let ns ← [a, b, c, d, e].mapM String.toNat?
+    match ns with
+    | [a, b, c, d, e] =>
+      pure ("ok " ++ "|".intercalate ((cmapBlockSizes a b c d e).map fun l => wireList "," toString l))
+    | _ => none
+  | ["tublocks", a, b, lens] => do
+    let a ← a.toNat?
+    let b ← b.toNat?
+    let lens ← natsOfWire lens
+    pure ("ok " ++ "|".intercalate ((tuBlockSizes a b lens).map fun l => wireList "," toString l))
+  | ["tugetmap", chain] => do
+    let chain ← listWire "~" tufileOfWire chain
+    match tuGetMapping chain with
+    | .error e => pure s!"err {e}"
+    | .ok items =>
+      -- maps.Collect: later items win; printed in the order of the codes
+      let m := items.foldl (fun (acc : List (Nat × Text)) p => (acc.filter fun q => q.1 != p.1) ++ [p]) []
+      let sorted := m.toArray.qsort (fun a b => a.1 < b.1) |>.toList
+      pure ("ok " ++ wireList ";" (fun (p : Nat × Text) => toString p.1 ++ "=" ++ textWire p.2) sorted)
+  | ["chaincodec", chain] => do
+    let chain ← chainOfWire chain
+    match chainCodec chain with
+    | .ok c => pure ("ok " ++ nodesWire c.nodes)
+    | .error e => pure s!"err {e}"
   | ["useres", dict, ps] => do
     -- Extract's parent resolution; for a name entry the name is the parent's name, the same
     -- the PostScript body uses
@@ -201,7 +227,7 @@ def handle13 (args : List String) : Option String :=
       | "stream" => some .stream
       | _ => none
     pure ("ok " ++ match resolveParent entry psName with
-      | .none => "none" | .predefined => "predefined" | .embedded => "embedded")
+      | .none => "none" | .predefined => "predefined" | .embedded => "embedded" | .error => "error")
   | ["next", t, inc] => do
     let t ← textOfWire t
     let inc ← inc.toNat?
